@@ -180,6 +180,14 @@ class HttpProtocolHandler(BaseTcpServerHandler[HttpClientConnection]):
             if self.request.state != httpParserStates.COMPLETE:
                 if self._parse_first_request(data):
                     return True
+                # Bytes that followed the 1st request within the same read
+                # (e.g. pipelined requests) are client data for the plugin.
+                if self.request.is_complete and self.plugin and \
+                        self.request.buffer is not None and \
+                        not isinstance(self.work.connection, ssl.SSLSocket):
+                    remaining = self.request.buffer
+                    self.request.buffer = None
+                    self.plugin.on_client_data(remaining)
             # HttpProtocolHandlerPlugin.on_client_data
             # Can raise HttpProtocolException to tear down the connection
             elif self.plugin:
